@@ -90,7 +90,7 @@ const (
 	vfRP          = "rp0"
 	vfMeasurement = "m"
 	vfDecoyShard  = 9
-	vfFuseCalls   = 60 // no scenario of the model needs more than 3 ops x 3 rounds x 3 nodes requests
+	vfFuseCalls   = 40 // no scenario of the model needs more than 3 ops x 3 rounds x 3 nodes requests
 )
 
 var vfT0 = time.Unix(1600000000, 0).UTC().Truncate(time.Hour)
@@ -1678,6 +1678,14 @@ func TestVerifFanout(t *testing.T) {
 						break
 					}
 					sigs, detail := vfJudge(sc, res)
+					if len(sigs) > 0 && in.Confirm {
+						// replay / confirmation of one scenario: the first reproduction is enough
+						atomic.AddInt64(&mism, 1)
+						for _, s := range sigs {
+							vtrace.Mismatch(s, detail, map[string]interface{}{"scenario": sc})
+						}
+						break
+					}
 					if len(sigs) > 0 {
 						// confirm: the same class must show again (timing noise does not repeat; the code's random
 						// owner choice may need a few attempts)
